@@ -173,3 +173,58 @@ def boundary_messages():
                 rec(j + 1, acc + [v])
         rec(0, [])
     return res
+
+
+# ---- what callers do between two calls -----------------------------------------------------------------
+def scribble(m):
+    """The caller owns what it was handed: give every attribute of the (mutable) message another valid value, and another time."""
+    try:
+        d = vars(m)
+        for a in KINDS[KIND_ID[d['type']]][1]:
+            if a == 'data':
+                m.data = tuple(d['data']) + (9,)
+            else:
+                lo, hi = RANGES[a]
+                setattr(m, a, lo if d[a] != lo else hi)
+        m.time = 4321
+    except Exception:  # noqa: BLE001
+        pass
+
+
+_NOISE = [0]
+
+
+def noise():
+    """Calls that the library must refuse, of the kind any program makes now and then (a float among the bytes, a value out of range, a
+    line that is not a message). They are caught by their caller; the calls that come after them must not notice. One of them per call,
+    in rotation."""
+    import mido
+    _NOISE[0] += 1
+    k = _NOISE[0] % 12
+    try:
+        if k == 0:
+            mido.Message.from_bytes([0x90, 60, 64.0])
+        elif k == 1:
+            mido.Message.from_bytes([0xf0, 1, 2, '3', 0xf7])
+        elif k == 2:
+            mido.Message.from_bytes((0xb0, 7.5, 1))
+        elif k == 3:
+            mido.Message.from_bytes([0xe3, 0, None])
+        elif k == 4:
+            mido.Message('note_on', note=60, velocity=999)
+        elif k == 5:
+            mido.Message('pitchwheel', channel=2, pitch=1.5)
+        elif k == 6:
+            mido.Message('sysex', data=[1, 2, 300])
+        elif k == 7:
+            mido.Message.from_str('note_on channel=2 note=61 velocity=banana')
+        elif k == 8:
+            mido.Message.from_str('control_change channel=3 control=7 value=')
+        elif k == 9:
+            mido.Message.from_hex('90 3C zz')
+        elif k == 10:
+            mido.Message('note_off', channel=5, note=3).copy(note=1, velocity=128)
+        else:
+            mido.Message.from_bytes([0x91, 60, 64, 5])
+    except Exception:  # noqa: BLE001
+        pass
